@@ -446,8 +446,20 @@ class ConfigParser(object):
         section = override.section, key = override.key, value = override.value, msg = e))
 
   def _check_for_duplicates(self):
+    self._check_for_duplicate_sections()
     self._check_for_duplicate_pairs()
     self._check_for_duplicate_table_forms()
+
+  def _check_for_duplicate_sections(self):
+    """Section names that differ only in white space ('[Pair]' and '[Pair ]') name the same
+    section: they share one entry in the parser's look-up table, so one would silently hide the other."""
+    seen = {}
+    for section_name in self._config_parser.sections():
+      k = _ConfigParserDict()._key_transform(section_name)
+      if k in seen:
+        raise ConfigParserDuplicateEntryException(
+          "Duplicate sections found: '[{}]' and '[{}]' differ only in white space".format(seen[k], section_name))
+      seen[k] = section_name
 
   def _check_for_duplicate_pairs(self, section_name = "Pair"):
     """Check the config parser for duplicate pair entries"""
